@@ -250,7 +250,6 @@ impl TerminalRenderer {
         }
 
         self.marks.fill(CellMark::Damaged);
-        self.front.fill(Cell::default());
         self.back.fill(Cell::default());
 
         Ok(())
